@@ -209,7 +209,7 @@ func (u *Unit) checkPost(st *State, fr *Frame, rs []Val, pos token.Pos) {
 			continue
 		}
 		seen[ch] = true
-		goal := fmt.Sprintf("(<= (- (select %s %s) %s) %s)", u.heapGet(st, "C_expect", chanArr), ch, u.chanGet(st, "C_recvd", ch), u.chanGet(st, "C_cap", ch))
+		goal := fmt.Sprintf("(<= (- (- (select %s %s) %s) (select %s %s)) %s)", u.heapGet(st, "C_expect", chanArr), ch, u.chanGet(st, "C_recvd", ch), u.heapGet(st, "C_drain", chanArr), ch, u.chanGet(st, "C_cap", ch))
 		u.oblige(st, "chan-abandon", "", goal, pos, "sends still owed by spawned goroutines fit into the channel buffer (no goroutine blocks forever)", u.contract.abandonProps(), "")
 	}
 	for i, c := range u.contract.Ensures {
@@ -350,6 +350,17 @@ func (u *Unit) modLocs(st *State, env *SpecEnv, m *Spec) ([]loc, string, error) 
 		return locs, "", nil
 	case SCall:
 		switch m.Name {
+		case "deref":
+			a, err := u.eval(st, env, m.Args[0])
+			if err != nil {
+				return nil, "", err
+			}
+			pv, err := u.ifacePtr(a)
+			if err != nil {
+				return nil, "", err
+			}
+			locs, _ := u.locsOf(u.ptrOf(pv))
+			return locs, "", nil
 		case "elems": // elems(s): all elements of slice s
 			a, err := u.eval(st, env, m.Args[0])
 			if err != nil {
@@ -377,11 +388,12 @@ func (u *Unit) modLocs(st *State, env *SpecEnv, m *Spec) ([]loc, string, error) 
 			}
 			return locs, "", nil
 		default:
-			if gs, ok := u.eng.cs.GhostFields[m.Name]; ok && len(m.Args) == 1 {
+			if gn, ok := u.eng.cs.GhostFields[m.Name]; ok && len(m.Args) == 1 {
 				a, err := u.eval(st, env, m.Args[0])
 				if err != nil {
 					return nil, "", err
 				}
+				gs, _, _ := u.specSort(env, gn)
 				return []loc{{comp: "GF_" + m.Name, arrSort: "(Array Int " + gs + ")", sort: gs, kind: "F", ref: objRef(a)}}, "", nil
 			}
 		case "mapstate":
@@ -397,12 +409,16 @@ func (u *Unit) modLocs(st *State, env *SpecEnv, m *Spec) ([]loc, string, error) 
 
 func (u *Unit) applyFrame(st *State, c *FuncContract, env *SpecEnv, args []Val, sig *types.Signature, pos token.Pos) {
 	if c.Pure {
+		u.bumpAlloc(st) // allocation is not an observable effect
 		return
 	}
-	if !c.HasMod || c.ModAll {
+	if !c.HasMod {
 		u.havocReachableArgs(st, args, pos)
 		u.bumpAlloc(st)
 		return
+	}
+	if c.ModAll {
+		u.havocReachableArgs(st, args, pos)
 	}
 	for _, m := range c.Modifies {
 		locs, ghost, err := u.modLocs(st, env, m)
@@ -836,4 +852,26 @@ func objRef(v Val) Term {
 		}
 	}
 	return v.Terms[0]
+}
+
+// ifacePtr: the pointer wrapped in an interface value whose dynamic type is known on this path.
+func (u *Unit) ifacePtr(x Val) (Val, error) {
+	if x.Inner != nil && x.Dyn != nil {
+		if _, ok := x.Dyn.Underlying().(*types.Pointer); ok {
+			v := *x.Inner
+			v.T = x.Dyn
+			return v, nil
+		}
+	}
+	if x.Dyn != nil {
+		if _, ok := x.Dyn.Underlying().(*types.Pointer); ok {
+			return Val{T: x.Dyn, Terms: []Term{x.Terms[1]}}, nil
+		}
+	}
+	if x.T != nil {
+		if _, ok := x.T.Underlying().(*types.Pointer); ok {
+			return x, nil
+		}
+	}
+	return Val{}, fmt.Errorf("deref(): dynamic type of the interface value is not known on this path")
 }
